@@ -52,8 +52,6 @@ def suite_ok(wt, log):
         if not bad:
             passed.add("%s::%s" % (tc.get("classname"), tc.get("name")))
     missing = sorted(baseline_ids() - passed)
-    # doctest ids in the baseline (wntr.epanet.util::...) are collected only with the repo's own options; compare on wntr.tests.* only
-    missing = [m for m in missing if m.startswith("wntr.tests.")]
     return missing
 
 
